@@ -655,7 +655,9 @@ func (e *enc) storeInstr(b *ssa.BasicBlock, i *ssa.Store) {
 	if fa, ok := i.Addr.(*ssa.FieldAddr); ok {
 		fname := fa.X.Type().Underlying().(*types.Pointer).Elem().Underlying().(*types.Struct).Field(fa.Field).Name()
 		e.callOrd["#store:"+fname]++
+		e.siteExtra = map[string]cval{"stored": {v, e.sortOf(i.Val.Type()), i.Val.Type()}, "target": {e.val(fa.X), "Ref", fa.X.Type()}}
 		e.siteAsserts(i, fmt.Sprintf("store %s %d", fname, e.callOrd["#store:"+fname]), nil, nil, R)
+		e.siteExtra = nil
 	}
 	switch l.kind {
 	case "struct":
@@ -786,6 +788,8 @@ func (e *enc) sliceInstr(b *ssa.BasicBlock, i *ssa.Slice) {
 		} else {
 			n := e.define(i, fmt.Sprintf("(ssub %s %s %s)", x, e.toInt(lo), e.toInt(hi)))
 			e.assumeAt(R, fmt.Sprintf("(= (slen %s) %s)", n, e.toInt(e.isub(hi, lo))))
+			// the bytes of a substring are those of the string
+			e.assumeAt(R, fmt.Sprintf("(forall ((k Int)) (! (=> (and (<= 0 k) (< k (slen %s))) (= (sat %s k) (sat %s (+ %s k)))) :pattern ((sat %s k))))", n, n, x, e.toInt(lo), n))
 		}
 	case *types.Slice:
 		hi := "(len " + x + ")"
